@@ -342,8 +342,8 @@ func c18Prep(j *orch.Job, r *orch.Result) error {
 				}
 				return err
 			}
-			if h < first-1 {
-				continue
+			if h < first-4 {
+				continue // (a few heights below the start of the concurrent phase are recorded too: a stale answer is allowed)
 			}
 			// quiescent point: the block is committed; wait until the daemon has also published it in memory
 			for i := 0; i < 400; i++ {
@@ -622,7 +622,7 @@ func c18Run(j *orch.Job, r *orch.Result) error {
 					}
 				}
 				var set []uint32
-				for h := first - 1; h <= segEnd+1 && h <= tip; h++ {
+				for h := first - 4; h <= segEnd+1 && h <= tip; h++ {
 					if ans, ok := refAns[h]; ok && pi < len(ans[rd.Q]) && ans[rd.Q][pi] == part {
 						set = append(set, h)
 					}
